@@ -148,11 +148,11 @@ def main(pid, tier, seed):
     models = export_models(mc_cfg)
     n_models_total = len(models)
     if pid == 'C10':
-        sample = models if tier == 'thorough' else rng.sample(models, min(len(models), 260))
+        sample = rng.sample(models, min(len(models), 260 if tier == 'quick' else 1500))
         for k, m in enumerate(sample):
             d = os.path.join(work, 'm%d' % k)
             omen.write_model(d, m)
-            hs = ['fresh', 'shared_shuffled'] if tier == 'quick' else ['fresh', 'shared_ascending', 'shared_shuffled', 'twice']
+            hs = ['fresh', 'shared_shuffled'] if tier == 'quick' else ['fresh', 'shared_shuffled', 'twice']
             tr, tid = level_traces(tid, d, list(range(0, maxlv + 2)), hs, rng, meta, {'kind': 'model-checked model', 'model': m})
             traces += tr
         for k, m in enumerate(sample[:60 if tier == 'quick' else 600]):
@@ -161,7 +161,7 @@ def main(pid, tier, seed):
             stt = omen.step_trace(len(step_traces) + 1, os.path.join(work, 'm%d' % k), lv[:4])
             if stt:
                 step_traces.append(stt)
-        nrand = 120 if tier == 'quick' else 1500
+        nrand = 120 if tier == 'quick' else 600
         for k in range(nrand):
             b = [None, None, None, 'ln10', 'ip10', 'ln0'][k % 6]
             m = omen.random_model(rng, boundary=b)
